@@ -353,4 +353,105 @@ theorem find_refines {s : AL} {l : List Val} (inv : Inv s l) (i : Int) (v : Val)
     rw [this]
     cases (l.drop k).idxOf? v <;> rfl
 
+theorem perm_eraseIdx (l : List Val) {k : Nat} (hk : k < l.length) :
+    List.Perm l (l[k] :: l.eraseIdx k) := by
+  have h1 : l = l.take k ++ l[k] :: l.drop (k + 1) := by
+    rw [← List.drop_eq_getElem_cons hk]; simp
+  rw [List.eraseIdx_eq_take_drop_succ]
+  conv => lhs; rw [h1]
+  exact List.perm_middle
+
+/-- **Ownership (reference sequence).** If every remove / clear passes the callback,
+the non-NULL data initially in the list or stored by the history are, as a
+multiset, exactly those handed to the callback plus those still in the list: no
+datum is released twice, none is dropped without the callback. -/
+theorem spec_ownership (ops : List Op) : ∀ (l : List Val), AllFree ops →
+    List.Perm ((l ++ stored ops (specRun l ops).2).filter (· ≠ 0))
+      ((freedBy (specRun l ops).2 ++ (specRun l ops).1).filter (· ≠ 0)) := by
+  induction ops with
+  | nil => intro l _; simp [specRun, stored, freedBy]
+  | cons op ops ih =>
+    intro l hall
+    cases op with
+    | insert i v =>
+      have ih' := ih (specInsert l i v).1 hall
+      simp only [specRun, specStep]
+      cases hp : specPos l i with
+      | none =>
+        simp only [specInsert, hp] at ih' ⊢
+        simpa [stored, freedBy] using ih'
+      | some k =>
+        have hk : k ≤ l.length := by rcases specPos_le hp with h | ⟨_, h⟩ <;> omega
+        simp only [specInsert, hp] at ih' ⊢
+        simp only [stored, freedBy]
+        refine List.Perm.trans (List.Perm.filter _ ?_) ih'
+        have h1 : List.Perm (l ++ v :: stored ops (specRun (l.insertIdx k v) ops).2)
+            (v :: (l ++ stored ops (specRun (l.insertIdx k v) ops).2)) := List.perm_middle
+        refine h1.trans ?_
+        have h2 := (List.perm_insertIdx v l hk).symm
+        exact (List.Perm.append_right _ h2)
+    | append i v =>
+      have ih' := ih (specAppend l i v).1 hall
+      simp only [specRun, specStep]
+      cases hp : specPos l i with
+      | none =>
+        simp only [specAppend, hp] at ih' ⊢
+        simpa [stored, freedBy] using ih'
+      | some k =>
+        by_cases hl : l = []
+        · subst hl
+          simp only [specAppend, hp, if_true] at ih' ⊢
+          simpa [stored, freedBy] using ih'
+        · have hk : k + 1 ≤ l.length := by
+            rcases specPos_le hp with h | ⟨h, _⟩
+            · omega
+            · exact absurd h hl
+          simp only [specAppend, hp, hl, if_false] at ih' ⊢
+          simp only [stored, freedBy]
+          refine List.Perm.trans (List.Perm.filter _ ?_) ih'
+          have h1 : List.Perm (l ++ v :: stored ops (specRun (l.insertIdx (k + 1) v) ops).2)
+              (v :: (l ++ stored ops (specRun (l.insertIdx (k + 1) v) ops).2)) := List.perm_middle
+          refine h1.trans ?_
+          have h2 := (List.perm_insertIdx v l hk).symm
+          exact (List.Perm.append_right _ h2)
+    | remove i fr =>
+      obtain ⟨hfr, hall'⟩ := hall
+      subst hfr
+      have ih' := ih (specRemove l i true).1 hall'
+      simp only [specRun, specStep]
+      cases hn : normIndex l.length i with
+      | none =>
+        simp only [specRemove, hn] at ih' ⊢
+        simpa [stored, freedBy] using ih'
+      | some k =>
+        have hk := normIndex_lt hn
+        have hd : (l.drop k).take 1 = [l[k]] := by
+          rw [List.drop_eq_getElem_cons hk]; simp [List.take]
+        simp only [specRemove, hn, if_true, hd] at ih' ⊢
+        simp only [stored, freedBy]
+        have h1 : List.Perm (l ++ stored ops (specRun (l.eraseIdx k) ops).2)
+            (l[k] :: (l.eraseIdx k ++ stored ops (specRun (l.eraseIdx k) ops).2)) :=
+          List.Perm.append_right _ (perm_eraseIdx l hk)
+        refine (List.Perm.filter _ h1).trans ?_
+        have h2 : ([l[k]] ++ freedBy (specRun (l.eraseIdx k) ops).2 ++ (specRun (l.eraseIdx k) ops).1)
+            = l[k] :: (freedBy (specRun (l.eraseIdx k) ops).2 ++ (specRun (l.eraseIdx k) ops).1) := by
+          simp
+        rw [h2, List.filter_cons, List.filter_cons]
+        split
+        · exact List.Perm.cons _ ih'
+        · exact ih'
+    | clear fr =>
+      obtain ⟨hfr, hall'⟩ := hall
+      subst hfr
+      have ih' := ih [] hall'
+      simp only [specRun, specStep, specClear, if_true, stored, freedBy]
+      simp only [List.nil_append] at ih'
+      rw [List.filter_append, List.append_assoc, List.filter_append, List.filter_filter]
+      simp only [Bool.and_self]
+      exact List.Perm.append_left _ ih'
+    | get i => simpa [specRun, specStep, stored, freedBy] using ih l hall
+    | find i v => simpa [specRun, specStep, stored, freedBy] using ih l hall
+    | ensure c => simpa [specRun, specStep, stored, freedBy] using ih l hall
+    | dump => simpa [specRun, specStep, stored, freedBy] using ih l hall
+
 end MgProof.C11.AL
